@@ -138,14 +138,38 @@ theorem C06_cf_rule_codec (t t' : List Sty) (r : Rule) (h : RuleWF r) (hx : Ext 
     (hT : t'.length ≤ 18446744073709551616) : readRule t' (writeRule t r).2 = .ok r :=
   readRule_written t t' r h hx hT
 
-/-- Blocks × rules, any number of each, starting from any dxf table `t0` (the table the workbook was loaded with;
-    empty for a new workbook): reading the written blocks against the final table returns the blocks — same blocks
-    in the same order, same ranges, same rules in the same order with the same priorities, every `dxfId` resolving
-    to its own rule's style (no swap between siblings, whichever styles coincide or differ). -/
-theorem C06_conditional_formatting_roundtrip (t0 : List Sty) (bs : List Block) (h : ∀ b ∈ bs, BlockWF b)
+/-- Blocks × rules, any number of each — a block may have no range and may have no rule, a colour of a scale may
+    have no attribute —, starting from any dxf table `t0` (the table the workbook was loaded with; empty for a new
+    workbook): reading the written blocks against the final table returns the blocks that have a rule
+    (`writtenBlocks`: a block without rules holds no conditional format and is not written, fix bc044095) — same
+    blocks in the same order, same ranges (none included, fix 13062503), same rules in the same order with the same
+    priorities, the colours of every scale in their places (fix 8f9bb711), every `dxfId` resolving to its own rule's
+    style (no swap between siblings, whichever styles coincide or differ); when every block has a rule, all of them. -/
+theorem C06_conditional_formatting_roundtrip (t0 : List Sty) (bs : List Block) (h : ∀ b ∈ bs, BlockOK b)
     (hT : (writeBlocks t0 bs).1.length ≤ 18446744073709551616) :
-    readBlocks (writeBlocks t0 bs).1 (writeBlocks t0 bs).2 = .ok bs :=
-  readBlocks_written bs t0 _ h (Ext.refl _) hT
+    readBlocks (writeBlocks t0 bs).1 (writeBlocks t0 bs).2 = .ok (writtenBlocks bs) ∧
+    ((∀ b ∈ bs, b.rules ≠ []) → readBlocks (writeBlocks t0 bs).1 (writeBlocks t0 bs).2 = .ok bs) := by
+  have h1 := readBlocks_written_norm bs t0 _ h (Ext.refl _) hT
+  exact ⟨h1, fun hr => by rw [h1, writtenBlocks_self bs hr]⟩
+
+/-- `writtenBlocks` only leaves out the blocks without rules: the others stay, in order, untouched; the rules that
+    come back are all the rules there were. -/
+theorem C06_cf_written_blocks (bs : List Block) :
+    (∀ b, b ∈ writtenBlocks bs ↔ b ∈ bs ∧ b.rules ≠ []) ∧
+    (writtenBlocks bs).flatMap (·.rules) = bs.flatMap (·.rules) ∧
+    writtenBlocks (writtenBlocks bs) = writtenBlocks bs := by
+  refine ⟨fun b => ?_, ?_, ?_⟩
+  · simp only [writtenBlocks, List.mem_filter, Bool.not_eq_eq_eq_not, Bool.not_true, List.isEmpty_eq_false_iff]
+  · induction bs with
+    | nil => rfl
+    | cons b r ih =>
+      cases hr : b.rules with
+      | nil => simpa [writtenBlocks, List.filter_cons, hr] using ih
+      | cons x xs =>
+        simp only [writtenBlocks, List.filter_cons, hr, List.isEmpty_cons, Bool.not_false, if_true, List.flatMap_cons]
+        simp only [writtenBlocks] at ih
+        rw [ih]
+  · simp [writtenBlocks, List.filter_filter]
 
 /-- the formula text is what `get_address_str` returned before -/
 theorem C06_cf_formula_text (f : Fml) (h : FmlWF f) :
@@ -165,22 +189,36 @@ theorem C06_cf_iconset_unfixed_fails :
       = .ok { dataBar := some ⟨[⟨some .percent, some ['0']⟩, ⟨some .percent, some ['3', '3']⟩], []⟩, iconSet := none } := by
   decide
 
-/-- Residual (not repaired): a colour without any attribute is not written, so the colours after it move up. -/
-theorem C06_cf_blank_color_fails :
-    readScaleKids (Node.children (writeScale "colorScale".toList ⟨[], [{}, { argb := some "FFFF0000".toList }]⟩)) {}
+/-- Before fix 8f9bb711 a colour without any attribute was not written, so the colours after it moved up. -/
+theorem C06_cf_blank_color_unfixed_fails :
+    readScaleKids (Node.children (writeScaleOld "colorScale".toList ⟨[], [{}, { argb := some "FFFF0000".toList }]⟩)) {}
       = .ok ⟨[], [{ argb := some "FFFF0000".toList }]⟩ := by decide
 
-/-- Residual (not repaired): a block without ranges is written with `sqref=""` and reloads with one empty range
-    (`"".split(' ')` yields one piece); `get_sqref` is the empty text before and after. -/
-theorem C06_cf_empty_sqref_fails :
-    readBlock [] (writeBlock [] ⟨[], []⟩).2 = .ok ⟨[{}], []⟩ ∧ sqrefText [{}] = sqrefText [] := by decide
+/-- now: the colour without attributes keeps its place (was the witness of the refutation; `c06 reset codecw cf-blank-color`) -/
+example : readScaleKids (Node.children (writeScale "colorScale".toList ⟨[], [{}, { argb := some "FFFF0000".toList }]⟩)) {}
+      = .ok ⟨[], [{}, { argb := some "FFFF0000".toList }]⟩ := by decide
 
-/-- Residual (not repaired): a block without rules is written as an empty element, which the worksheet reader (an
-    `Event::Start` arm) does not see: the block is gone after reload and the blocks after it move up. -/
-theorem C06_cf_no_rules_fails :
-    readBlocks [] (writeBlocks [] [⟨[⟨some ⟨1, false⟩, some ⟨1, false⟩, none, none⟩], []⟩,
-                                    ⟨[⟨some ⟨2, false⟩, some ⟨2, false⟩, none, none⟩], [{ priority := some 1 }]⟩]).2
+/-- Before fix 13062503 the `sqref=""` a block without ranges is written with reloaded as one empty range
+    (`"".split(' ')` yields one piece); `get_sqref` is the empty text before and after. -/
+theorem C06_cf_empty_sqref_unfixed_fails :
+    setSqrefOld [] (sqrefText []) = .ok [{}] ∧ sqrefText [{}] = sqrefText [] := by decide
+
+/-- now: no range (`c06 reset codecw cf-empty-sqref`) -/
+example : readBlock ["s".toList] (blockElem [] ⟨[], [{ priority := some 1 }]⟩) = .ok ⟨[], [{ priority := some 1 }]⟩ := by
+  decide +kernel
+
+/-- Before fix bc044095 a block without rules was written as an empty element (`blockElem`), which the worksheet
+    reader (an `Event::Start` arm) does not see: the block was gone after reload all the same, and the file held
+    an element that is not valid (CT_ConditionalFormatting requires a cfRule). -/
+theorem C06_cf_no_rules_unfixed_fails :
+    readBlocks [] [blockElem [] ⟨[⟨some ⟨1, false⟩, some ⟨1, false⟩, none, none⟩], []⟩,
+                   blockElem [] ⟨[⟨some ⟨2, false⟩, some ⟨2, false⟩, none, none⟩], [{ priority := some 1 }]⟩]
       = .ok [⟨[⟨some ⟨2, false⟩, some ⟨2, false⟩, none, none⟩], [{ priority := some 1 }]⟩] := by decide +kernel
+
+/-- now: nothing is written for it (`c06 reset codecw cf-no-rules`) -/
+example : (writeBlocks [] [⟨[⟨some ⟨1, false⟩, some ⟨1, false⟩, none, none⟩], []⟩,
+                           ⟨[⟨some ⟨2, false⟩, some ⟨2, false⟩, none, none⟩], [{ priority := some 1 }]⟩]).2
+      = [blockElem [] ⟨[⟨some ⟨2, false⟩, some ⟨2, false⟩, none, none⟩], [{ priority := some 1 }]⟩] := by rfl
 
 /-- Outside `FmlWF`: a text `is_address` accepts is re-printed from the parsed address (`A01` → `A1`,
     `'S'!A1` → `S!A1`): the same reference in canonical spelling. -/
@@ -203,7 +241,7 @@ example : ∀ b ∈ ([⟨[⟨some ⟨1, false⟩, some ⟨1, false⟩, some ⟨3
   intro b hb
   simp only [List.mem_cons, List.mem_nil_iff, or_false] at hb
   rcases hb with rfl | rfl
-  · refine ⟨fun ρ hρ => rangesOK_witness ρ (by simp only [List.mem_singleton] at hρ; subst hρ; simp), by simp, by simp, ?_⟩
+  · refine ⟨fun ρ hρ => rangesOK_witness ρ (by simp only [List.mem_singleton] at hρ; subst hρ; simp), by simp, ?_⟩
     intro r hr
     simp only [List.mem_cons, List.mem_nil_iff, or_false] at hr
     rcases hr with rfl | rfl | rfl
@@ -216,14 +254,51 @@ example : ∀ b ∈ ([⟨[⟨some ⟨1, false⟩, some ⟨1, false⟩, some ⟨3
       refine ⟨fun c hc => ?_⟩
       simp only [List.mem_cons, List.mem_nil_iff, or_false] at hc
       rcases hc with rfl | rfl
-      · exact ⟨by simp, by simp, by simp, by simp⟩
-      · exact ⟨by simp, by simp, by simp, by simp⟩
-  · refine ⟨fun ρ hρ => rangesOK_witness ρ (by simp only [List.mem_singleton] at hρ; subst hρ; simp), by simp, by simp, ?_⟩
+      · exact ⟨by simp, by simp, by simp⟩
+      · exact ⟨by simp, by simp, by simp⟩
+  · refine ⟨fun ρ hρ => rangesOK_witness ρ (by simp only [List.mem_singleton] at hρ; subst hρ; simp), by simp, ?_⟩
     intro r hr
     simp only [List.mem_singleton] at hr; subst hr
     refine ⟨by simp [I32], by simp, by simp, by simp, by simp, by simp, ?_⟩
     intro f hf; injection hf with hf; subst hf
     exact FmlWF.area _ areaOK_witness
+
+/-- non-vacuity of `BlockOK` beyond `BlockWF`, executed: a block without ranges whose colour scale has a colour
+    without attributes between two others, a block without rules, a block with both: the first and the third come
+    back, as they were -/
+example :
+    let bs : List Block := [⟨[],
+      [{ type := some .colorScale, priority := some 1,
+         colorScale := some ⟨[⟨some .min, none⟩, ⟨some .percentile, some "50".toList⟩, ⟨some .max, none⟩],
+           [{ argb := some "FFF8696B".toList }, {}, { theme := some 4 }]⟩ }]⟩,
+      ⟨[⟨some ⟨1, false⟩, some ⟨1, false⟩, some ⟨3, true⟩, some ⟨1048576, true⟩⟩], []⟩,
+      ⟨[⟨some ⟨16384, false⟩, some ⟨7, false⟩, none, none⟩], [{ style := some "s1".toList, priority := some 2 }]⟩]
+    (∀ b ∈ bs, BlockOK b) ∧ writtenBlocks bs = [bs[0], bs[2]] ∧
+    readBlocks (writeBlocks [] bs).1 (writeBlocks [] bs).2 = .ok [bs[0], bs[2]] := by
+  intro bs
+  have hok : ∀ b ∈ bs, BlockOK b := by
+    intro b hb
+    simp only [bs, List.mem_cons, List.mem_nil_iff, or_false] at hb
+    rcases hb with rfl | rfl | rfl
+    · refine ⟨fun ρ hρ => by simp at hρ, ?_⟩
+      intro r hr
+      simp only [List.mem_singleton] at hr; subst hr
+      refine ⟨by simp [I32], by simp, by simp, ?_, by simp, by simp, by simp⟩
+      intro s hs; injection hs with hs; subst hs
+      refine ⟨fun c hc => ?_⟩
+      simp only [List.mem_cons, List.mem_nil_iff, or_false] at hc
+      rcases hc with rfl | rfl | rfl
+      · exact ⟨by simp, by simp, by simp⟩
+      · exact ⟨by simp, by simp, by simp⟩
+      · exact ⟨by simp, by simp, by simp⟩
+    · exact ⟨fun ρ hρ => rangesOK_witness ρ (by simp only [List.mem_singleton] at hρ; subst hρ; simp), fun r hr => by simp at hr⟩
+    · refine ⟨fun ρ hρ => rangesOK_witness ρ (by simp only [List.mem_singleton] at hρ; subst hρ; simp), ?_⟩
+      intro r hr
+      simp only [List.mem_singleton] at hr; subst hr
+      exact ⟨by simp [I32], by simp, by simp, by simp, by simp, by simp, by simp⟩
+  refine ⟨hok, by decide, ?_⟩
+  rw [(C06_conditional_formatting_roundtrip [] bs hok (by decide +kernel)).1]
+  decide
 
 /-- the same value, executed: the second block's rule gets `dxfId` 0 again and reads its own style -/
 example :
